@@ -547,9 +547,13 @@ def check_records(ctx, cs, recs_by_cfg, base_seed, specs, use_model=True):
                 continue
             ins = [tuple(x) for x in o["ins"]]
             spec = specs.get(idx)
-            known_region = W.shared_reduce_subrecipes(recipe)
-            if known_region:
-                ctx.count("region:shared-reduce-subterm (KF-shared-binder-unfold, not gated)")
+            # A repeated identical reduced sub-term (one hash-consed object, ONE bound name) is the region of the
+            # open finding KF-shared-binder-unfold — but that finding needs optimizer.unfold / apply_optimizer,
+            # which no mode of this check goes through: lazy / reflect / normalize / memoize / sequential /
+            # moment_matching are correct there on the pinned tree, so these cases are gated like all others.
+            known_region = False
+            if W.shared_reduce_subrecipes(recipe):
+                ctx.count("region:shared-reduce-subterm (gated: no mode passes through unfold/optimizer)")
             eager_d = o["modes"].get("eager")
             ref = None          # reference digest
             ref_src = None
@@ -837,6 +841,9 @@ def correspond(ctx):
                 "substituted at names of both children (numbers, swap) or reduced, "
                 "1/10 non-commutative binary ops (sub, truediv, pow, lt/le/gt/ge) whose right / left / both operands are "
                 "`.align(names)` (full permutations and partial tuples) of compound sub-terms, bare, reduced, negated or nested, "
+                "1/10 products / sums whose operands repeat ONE reduced sub-expression (s*s, s*w*s, (s+t)*s, s+s, nested, "
+                "three occurrences; s, t reductions over the same user-level name; semirings (add,mul) (max,add) (min,add) "
+                "(max,mul) and logaddexp/add rounded), "
                 "1/10 user-defined terms made with funsor.factory.make_funsor (15 classes: every declaration order of Bound / "
                 "Funsor / Has / Fresh parameters, one and two binders, Fresh output names; bare, followed by .reduce(op) over ALL "
                 "inputs, by (t+z).reduce(op), or by substituting an index tensor that depends on a free variable named like the "
